@@ -329,7 +329,7 @@ HIST = {
     "move(y,z)": lambda g, a: g.move(y=a, z=2.5),
     "rapid(z)": lambda g, a: g.rapid(z=a),
     "move_absolute(x)": lambda g, a: g.move_absolute(x=a),
-    "rapid_absolute(y)": lambda g, a: g.rapid_absolute(y=a),
+    "rapid_absolute(x,y)": lambda g, a: g.rapid_absolute(x=a, y=0.5),
     "set_axis(x)": lambda g, a: g.set_axis(x=a),
     "set_axis(y,z)": lambda g, a: g.set_axis(y=a, z=-1.5),
     "auto_home(x)": lambda g, a: g.auto_home(x=a),
@@ -354,9 +354,10 @@ HIST["in-absolute_mode"] = lambda g, a: _hist_ctx(g, "in-absolute_mode", a)
 HIST["in-relative_mode"] = lambda g, a: _hist_ctx(g, "in-relative_mode", a)
 
 
-def _make_history(seq):
+def _make_history(seq, start="fresh"):
     """A TRUE history from a freshly constructed builder (all axes unknown, no private pre-state,
-    no invariant assumed): I1 must hold after every call."""
+    no invariant assumed): I1 must hold after every call. start="rel": the history begins with the
+    public calls move(x=1.5, y=2.5, z=3.5); set_distance_mode("relative")."""
     from gscrib import GCodeBuilder
     from ..fixture import Rec
 
@@ -368,6 +369,9 @@ def _make_history(seq):
         rec = Rec()
         g.add_writer(rec)
         pre = mkpre()
+        if start == "rel":
+            g.move(x=1.5, y=2.5, z=3.5)
+            g.set_distance_mode("relative")
         for k, (name, a) in enumerate(zip(seq, vals)):
             e = attempt(HIST[name], g, a)
             if e is not None:
@@ -441,11 +445,12 @@ def cells(tier):
     names = list(HIST)
     hseqs = list(itertools.product(names, repeat=2))
     core3 = ["move(x)", "move(y,z)", "set_axis(x)", "auto_home(x)", "probe(z)", "relative",
-             "in-absolute_mode", "move_absolute(x)"]
+             "in-absolute_mode", "move_absolute(x)", "rapid_absolute(x,y)"]
     hseqs += list(itertools.product(core3 if quick else names, repeat=3))
-    for seq in hseqs:
-        out.append(Cell("history|" + ",".join(seq), _make_history(seq), budget_s=budget,
-                        must_reach=("emitted",), entry="GCodeBuilder (history from a fresh builder)"))
+    for start in ("fresh", "rel"):
+        for seq in hseqs:
+            out.append(Cell(f"history|{start}|" + ",".join(seq), _make_history(seq, start), budget_s=budget,
+                            must_reach=("emitted",), entry="GCodeBuilder (history from a fresh builder)"))
     kinds = ["abs", "rel", "abs-in-rel", "rel-in-abs", "abs-raise", "rel-raise", "abs-switch",
              "rel-switch"]
     for kind in kinds:
